@@ -1356,3 +1356,149 @@ def result_fate(f, call, _depth=0, _seen=None):
             else:
                 fates.add("escapes")
     return fates
+
+
+# --------------------------------------------------------------------------------------
+# definitely-moved locals (so that drop-flag guarded drops of moved values can be ignored)
+
+def _place_key(l, proj):
+    """Key for a whole local or a one-level field place; None for anything deeper / indirect."""
+    if not proj:
+        return (l, None)
+    if len(proj) == 1 and proj[0].startswith("."):
+        return (l, proj[0])
+    if len(proj) == 2 and proj[0] == "*" and proj[1].startswith(".") and ":" in proj[1]:
+        # field of a boxed / borrowed receiver: the pointer temp differs from use to use, the field (with its
+        # owning ADT path) identifies the place
+        return ("*", proj[1])
+    return None
+
+
+def _moves_and_inits(f, bb):
+    """Ordered events of a block: ('move', key) / ('init', key); key = (local, None) or (local, field)."""
+    ev = []
+
+    def ops_of_rv(rv):
+        k = rv["k"]
+        if k in ("use", "cast", "repeat"):
+            return [rv["op"]]
+        if k == "bin":
+            return [rv["a"], rv["b"]]
+        if k == "un":
+            return [rv["a"]]
+        if k == "agg":
+            return rv["ops"]
+        return []
+
+    def mv(op):
+        if op.get("o") == "move":
+            key = _place_key(op["l"], op.get("pl", {}).get("p"))
+            if key is not None:
+                ev.append(("move", key))
+    b = f.blocks[bb]
+    for st in b["stmts"]:
+        if st["k"] != "assign":
+            continue
+        for op in ops_of_rv(st["rv"]):
+            mv(op)
+        key = _place_key(st["to"]["l"], st["to"].get("p"))
+        if key is not None:
+            ev.append(("init", key))
+    t = b["term"]
+    if t["k"] == "call":
+        for op in t["args"]:
+            mv(op)
+        if t.get("dest"):
+            key = _place_key(t["dest"]["l"], t["dest"].get("p"))
+            if key is not None:
+                ev.append(("init", key))
+    elif t["k"] == "drop":
+        key = _place_key(t["place"]["l"], t["place"].get("p"))
+        if key is not None:
+            ev.append(("move", key))   # dropped = no longer initialised
+    return ev
+
+
+def is_moved(state, l, proj):
+    """state: frozenset of keys from must_moved_in; is the place (l, proj) definitely moved-out?"""
+    if state is None:
+        return True
+    if (l, None) in state:
+        return True
+    key = _place_key(l, proj)
+    return key is not None and key in state
+
+
+def must_moved_in(f, success_only=True):
+    """Forward must-analysis: for each block the set of locals that are definitely moved-out (uninitialised)
+    at block entry, along normal edges (error exits cut when success_only).  Unreached blocks map to None."""
+    attr = "_must_moved_s" if success_only else "_must_moved"
+    c = getattr(f, attr, None)
+    if c is not None:
+        return c
+    n = f.n
+    cb, ce = success_cuts(f) if success_only else (set(), set())
+    inn = [None] * n
+    inn[0] = frozenset((l, None) for l in range(f.argc + 1, len(f.locals)))  # non-argument locals start uninitialised
+    evs = [_moves_and_inits(f, b) for b in range(n)]
+    work = deque([0])
+    while work:
+        b = work.popleft()
+        cur = set(inn[b])
+        for (k, key) in evs[b]:
+            if k == "move":
+                cur.add(key)
+            else:
+                cur.discard(key)
+                if key[1] is None:
+                    # re-initialising the whole local re-initialises its fields
+                    for other in [x for x in cur if x[0] == key[0]]:
+                        cur.discard(other)
+        out = frozenset(cur)
+        for s in f.succ(b):
+            if s in cb or (b, s) in ce:
+                continue
+            if inn[s] is None:
+                inn[s] = out
+                work.append(s)
+            else:
+                new = inn[s] & out
+                if new != inn[s]:
+                    inn[s] = new
+                    work.append(s)
+    setattr(f, attr, inn)
+    return inn
+
+
+def owns_by_value(ty, names):
+    """Does the type string contain one of `names` by value (not behind a reference)?"""
+    for nm in names:
+        start = 0
+        while True:
+            i = ty.find(nm, start)
+            if i < 0:
+                break
+            start = i + 1
+            end = i + len(nm)
+            if end < len(ty) and (ty[end].isalnum() or ty[end] in "_:") and not ty[end:end + 3] == "::<":
+                continue
+            if i > 0 and (ty[i - 1].isalnum() or ty[i - 1] in "_:"):
+                continue
+            # walk the prefix tracking whether the current type-argument position is behind a reference
+            stack = [False]
+            j = 0
+            while j < i:
+                ch = ty[j]
+                if ch in "<([":
+                    stack.append(stack[-1])
+                elif ch in ">)]":
+                    if len(stack) > 1:
+                        stack.pop()
+                elif ch == ",":
+                    stack[-1] = stack[-2] if len(stack) > 1 else False
+                elif ch == "&" or ty[j:j + 6] in ("*const", "*mut  ") or ty[j:j + 4] == "*mut":
+                    stack[-1] = True
+                j += 1
+            if not stack[-1]:
+                return True
+    return False
